@@ -191,12 +191,11 @@ func TestVerif_C10(t *testing.T) {
 		key := specKey(c)
 		rng := l.Rng
 		for d := 0; d < 2; d++ {
-			mw, err := newMiddlewareVia(c.Config(), l.Batch+d)
+			debug := d == 1
+			mw, err := newMiddlewareViaDbg(c.Config(), l.Batch+5*d, debug)
 			if err != nil {
 				return
 			}
-			debug := d == 1
-			mw.SetDebug(debug)
 			if (l.Batch+d)%2 == 0 {
 				poisonRound(mw, allowed[0]) // hostile wrapped handler first (see poisonRound)
 			}
